@@ -538,6 +538,42 @@ def rule_Z2(prog, fixture=False):
             where = "%s:%d" % (rel, x.line)
             what = "%s in %s" % (x.text()[:60], f.short)
             extra = {"props": ["C05"]}
+            # divisor = std::gcd(a, b), directly or through a single-definition local: zero iff both arguments are zero
+            gsrc = r
+            if gsrc.k == "DeclRefExpr" and gsrc.decl and gsrc.decl.get("k") == "local":
+                from .ir import _single_def
+                d0 = _single_def(gsrc)
+                if d0 is None:
+                    # int gcd = std::gcd(p, q);  p /= gcd;  - the local itself is never written, only read
+                    defs = [v for v in f.walk() if v.k == "VarDecl" and v.decl and v.decl.get("id") == gsrc.decl.get("id") and v.c]
+                    d0 = defs[0].c[0] if len(defs) == 1 and ("id", gsrc.decl.get("id")) not in {k for (_, _, k) in f._writes()} else None
+                gsrc = d0.strip_all() if d0 is not None else gsrc
+            if gsrc.k == "CallExpr" and gsrc.callee and gsrc.callee.get("qn") in ("std::gcd", "gcd") and len(gsrc.call_args()) == 2:
+                n += 1
+                f.blocks
+                if "?" not in t:
+                    st0 = ch.prove(f, x, ("cmp", t, (-INF, INF, 0)), [], 0, canon, [])
+                    if st0[0] == "ok":
+                        res.add(key, DISCHARGED, where, what, "divisor != 0: " + st0[1][:200], func=f.name, extra=extra)
+                        continue
+                verdicts = []
+                for a in gsrc.call_args():
+                    ta = canon(a)
+                    if "?" in ta:
+                        verdicts.append(("unk", "argument outside the mini-domain", []))
+                    else:
+                        verdicts.append(ch.prove(f, gsrc, ("cmp", ta, (-INF, INF, 0)), [], 0, canon, []))
+                if any(v[0] == "ok" for v in verdicts):
+                    res.add(key, DISCHARGED, where, what, "gcd of two values of which one is never zero: " + [v for v in verdicts if v[0] == "ok"][0][1][:160],
+                            func=f.name, extra=extra)
+                elif all(v[0] == "bad" for v in verdicts):
+                    res.add(key, VIOLATED, where, what,
+                            "integer division by zero (SIGFPE, not an exception): std::gcd(0, 0) is 0, and both arguments can be 0 - "
+                            + "; ".join(v[1].replace("reaches the belief", "reaches the call, which needs").replace(", which is false for it", "") for v in verdicts)[:600],
+                            func=f.name, extra=extra)
+                else:
+                    res.add(key, UNMODELLED, where, what, "gcd divisor: " + [v for v in verdicts if v[0] != "ok"][0][1][:160], func=f.name, extra=extra)
+                continue
             if "?" in t or not re.fullmatch(r"(p:\w+|this\.\w+|l:\w+#\d+)", t):
                 # a computed divisor (win.size() - noverlap): linear constraint system of the program point (rules_bounds)
                 from .rules_bounds import nonzero_verdict
